@@ -137,7 +137,12 @@ CLAIMS: dict[str, tuple[str, str, str, str]] = {
         "link_open carries an href and every image a src — first attribute in both cases — that is empty or URL-safe ASCII with no dangerous "
         "scheme, for the tokens of the stream and of every image description nested in it to any depth (deep token predicate; same RefsOK "
         "hypothesis); full_hrefs (Props/C05e.lean): the same for the output of MarkdownIt.parse end to end on the modelled sub-language (through the inline "
-        "core rule and text_join, whose recursion over nested tokens keeps types and attributes: joinToks_deep; tie `fullparse`). PARTIAL: for the reference block rule and linkify 'every href/src the parser stores went "
+        "core rule and text_join, whose recursion over nested tokens keeps types and attributes: joinToks_deep; tie `fullparse`); fullR_hrefs "
+        "(Props/C05f.lean) adds the reference block rule (lean/MdIt/BlockRef.lean, ten of eleven block rules, tie `fullparser`): the rule only ever appends "
+        "(label, normalizeLink(dest), title) with validateLink true to env['references'] / env['duplicate_refs'] (C16.reference_records_valid), every other rule, "
+        "loop, terminator chain and container with its nested runs hands the tables on (C16.keeps_*, blockLoop_keeps: no engine contract needed), so the env "
+        "the inline rules read satisfies RefsOK whenever the env the caller passed in does (envAfter_refsOK): links and images resolved through definitions "
+        "standing in the document itself carry validated destinations, and so do all recorded entries. PARTIAL: for the table rule's cells (inline content of a rule outside the model) and linkify 'every href/src the parser stores went "
         "through normalizeLink+validateLink' is not a "
         "theorem (oracle on tokens and rendered attributes + advisory AST scan); the "
         "linkifier clause cannot be run (dependency absent). Tie: encode per code point and on %xx strings, "
@@ -244,7 +249,8 @@ CLAIMS: dict[str, tuple[str, str, str, str]] = {
         "On the block side m_total (Props/C01h.lean) adds html_block (HTML_SEQUENCES translated from the live pattern objects) and lheading "
         "(setext scan with its terminator chain; the parentType it leaves behind on a miss is modelled): nine of the eleven block rules, any subset, "
         "either value of the html option (tie: `mblock`, 3k/80k documents). "
-        "MISSING: for the other rules (table, reference; linkify) the "
+        "The reference rule is modelled and tied (driver `fullparser`) with K1, K2, K4 and forward progress proved (Props/C16b.lean reference_contract); its K3 upper bound is not, "
+        "so the ten-rule chain has no totality theorem. MISSING: for the other rules (table; linkify) the "
         "contracts stay hypotheses, monitored on every "
         "call of every real rule (harness/monitor.py, ~47k rule calls per quick run); renderer/CLI totality "
         "and the CPython stack limit by oracle (time-limited sweeps: random x configurations, bounded-exhaustive "
@@ -318,6 +324,14 @@ CLAIMS: dict[str, tuple[str, str, str, str]] = {
         "any env: whatever a label resolved to, it still does), recorded_once (every definition is recorded exactly once, as "
         "first definition or as duplicate), seed_eq_prepend (the bookkeeping of R then D equals that of R ++ D), "
         "normRef_trim (label normalisation ignores surrounding whitespace, for every whitespace predicate and fold). "
+        "The reference rule itself is modelled (lean/MdIt/BlockRef.lean: quick scan, continuation scan with its terminator chain, the string parse with its "
+        "line counting, title roll-back, references / duplicate_refs, definition token, the parentType it leaves behind on a miss) and tied end to end on "
+        "whole documents (driver `fullparser`: tokens, children, and the env entries recorded). Props/C16b.lean: reference_shape / reference_contract (for every "
+        "call the loop can make the rule returns — K1 —, a miss leaves state.line, tokens and both tables alone — K2 —, the frame is restored — K4 —, a match "
+        "moves state.line forward and records exactly one entry), reference_records_valid; Props/C16c.lean: the two tables are handed on untouched by every "
+        "other rule, loop, terminator chain and container (keeps_*, blockLoop_keeps), hence rParse_refsValid / C05.fullR_hrefs for the ten-rule chain. Not "
+        "proved: the upper bound of K3 (state.line <= lineMax) for this rule — it needs 'no line text holds a line feed', which the engine's call context "
+        "does not carry — so totality / well-formedness / staging theorems stay on the nine-rule chains. "
         "MISSING: 'parse(D, env after R) = parse(R+D)' on whole token streams is C07.concat with A := R, and reference "
         "form == inline form needs the link rules: both decided by the oracle (HTML of seeded vs prepended under fresh/"
         "seeded/seeded-twice histories; (text,dest,title) grid; label variants). Case folding is interpreter behaviour: a "
